@@ -2,7 +2,7 @@
    the leading zero bytes, rounding the count up to an even number, then a slice) is the model's
    as_equal_slice, for every secret shorter than 2^64 - 1 bytes and any fuel above its length. *)
 From Coq Require Import List NArith Arith Lia ZifyBool ZifyNat ZifyN.
-From WS Require Import lib.Bytes lib.Res lib.StepLoop Consts Steps model.Bigint model.Key.
+From WS Require Import lib.Bytes lib.Res lib.StepLoop Consts Steps spec.Srp6 model.Bigint model.Key proofs.Key.
 Import ListNotations.
 Local Open Scope N_scope.
 Ltac Zify.zify_post_hook ::= Z.div_mod_to_equations.
@@ -89,3 +89,15 @@ Qed.
 Corollary skey_as_equal_slice_translated_32 : forall s : list N,
   length s = 32%nat -> tr_skey_as_equal_slice 33 s = res_view (as_equal_slice s).
 Proof. intros s H. apply skey_as_equal_slice_translated; rewrite H; [reflexivity | lia]. Qed.
+
+(* property level, about the translated function: the 32-byte secret loses its low-order zero bytes
+   and, if an odd number of bytes is left, one more; the all-zero secret gives the empty slice
+   (no panic: the scan is bounded by the length) *)
+Theorem skey_source_strip : forall s : list N, length s = 32%nat ->
+  tr_skey_as_equal_slice 33 s = Some (strip s).
+Proof.
+  intros s H. rewrite skey_as_equal_slice_translated_32 by exact H.
+  rewrite as_equal_slice_spec by (rewrite H; reflexivity). reflexivity.
+Qed.
+Theorem skey_source_zero_secret : tr_skey_as_equal_slice 33 (repeat 0 32) = Some [].
+Proof. rewrite skey_source_strip by reflexivity. reflexivity. Qed.
